@@ -23,6 +23,12 @@ PROPS = {
                 partial='proved: Spec.C07.bounds for every request of the cycle, and no-shrink when max-idle-time = 0; keepsNeeded (scale-down never removes a needed shard) and no-shrink under need-space are monitored on implementation and model outcomes, theorem pending'),
     'C08': dict(engine='coord', module='Kvass.Props.C08', assumptions=COORD_ASSUME,
                 partial='proved: leftAlone, noNeedlessPush, noUpdates for every schedule; noSecondAssign and dstInSync (destination of a move is in sync) are monitored on implementation and model outcomes, theorem pending'),
+    'C10': dict(engine='sidecar', module='Kvass.Props.C10',
+                assumptions=['update requests carry each hash once (what the coordinator sends); the clock is injected through the verif hook VerifSetTimeNow'],
+                partial='update / scrape / restart step theorems hold from every state satisfying Cons and IdleInv, which are proved for every operation history; restart is proved at model level (Prop), the Bool monitor restartOk is evaluated on the real sidecar'),
+    'C14': dict(engine='sidecar', module='Kvass.Props.C14',
+                assumptions=['the float mean int64(float64(total)/float64(n)) equals integer division below 2^51 (n <= 3): exercised at exact multiples and neighbours', 'metric relabeling is a parameter (kept : Bool per sample) of the counting model; the real relabel engine runs in the harness'],
+                partial='none for the stated clauses: counts, per-metric sums, sliding window over every result sequence, shard load formula'),
     'C18': dict(engine='k8s', module='Kvass.Props.C18',
                 assumptions=['client-go fake clientset stands in for the API server; pod names are <sts>-<ordinal>'],
                 partial='none for the stated clauses: exact deleted-claim set, replica count / no-op, ordinal order, rolling-update skip are theorems; readiness wait (2 min timer) is not part of the property'),
@@ -31,6 +37,8 @@ PROPS = {
 }
 
 LEVEL_TEXT = {
+    'C10': 'Machine-checked theorems (Lean 4) by induction over every operation history (updates, scrapes, restarts): consistency and idle invariants for all reachable states, and step theorems giving exactly-the-requested keys, requested states, retained statistics, counter restart exactly on normal->in-transfer, idle-since semantics. Decision expressions regenerated from targets.go/service.go/status.go; the model is validated against the real TargetsManager+Service+Proxy on random histories every run.',
+    'C14': 'Machine-checked theorems (Lean 4): sample counting (total, kept, per-metric sums) for every payload; series = integer mean of the last <=3 successful scrapes and total = last successful, for every result sequence; shard load = sums with the head-series floor. Validated against the real proxy/parser/relabel engine with payloads of known counts.',
     'C18': 'Machine-checked theorems (Lean 4) for all current/requested counts, template numbers and flags (Int/Nat, unbounded): a claim is deleted iff deletion is on and requested <= ordinal < current; exact replica count; no-op when unchanged; listing in ordinal order for every pod order. Loop bounds, conditions and name formats are regenerated from shardmanager.go on every run; the model is compared with the real package on a fake clientset exhaustively over [0,6]^2.',
     'C01': 'Machine-checked theorems (Lean 4): the monitored predicate Spec.C01.ok holds of the observable outcome of Coord.cycle for every schedule (map orders, random picks), every seriesWithRate and every input; the model calls decision expressions regenerated from the Go source on every run and is validated against the real coordinator on every run.',
     'C05': 'Machine-checked theorems (Lean 4): the hand-over threshold extracted from the source equals the documented 3, and no in-sync shard loses a discovered target unless it and a remaining holder have scraped it 3 times (Spec.C05.removal) for every schedule and input; move-step clause monitored.',
@@ -43,12 +51,13 @@ LEVEL_TEXT = {
 NOT_APPLICABLE = {
     'C02': 'check under construction', 'C03': 'check under construction', 
     'C06': 'check under construction', 
-    'C09': 'check under construction', 'C10': 'check under construction', 'C11': 'check under construction',
+    'C09': 'check under construction', 'C11': 'check under construction',
     'C12': 'check under construction', 'C13': 'check under construction', 'C14': 'check under construction',
     'C15': 'check under construction', 'C16': 'check under construction', 'C17': 'check under construction',
     'C19': 'check under construction', 'C20': 'check under construction',
 }
 
 ENGINES = [
+    {'name': 'sidecar', 'path': 'harness/cmd/kvh/sidecar.go', 'kind_free_text': 'real TargetsManager + Service (HTTP handlers) + Proxy with a scripted target transport, driven by random operation histories; every step trace-validated against Sidecar.step and the relational specs'},
     {'name': 'k8s', 'path': 'harness/cmd/kvh/k8s.go', 'kind_free_text': 'real pkg/shard/kubernetes on a client-go fake clientset; scale cases exhaustive over small counts, shard listings random permutations'},
 ]
